@@ -192,18 +192,18 @@ reg('C07', plan=plan_c07, level='proof', min_obligations=100,
     design_ref='DESIGN.md §5 C07')
 
 def plan_c11(tier, seed):
-    return {'verus': [('u_planes', {}), ('u_ctor', {})]}
+    return {'verus': [('u_dispatch', {})]}
 reg('C11', plan=plan_c11, level='proof', min_obligations=40,
     title='Conversions are pointwise, order-preserving and layout-independent',
     technique='Verus loop invariants: the output of each plane loop is stated as a function of origin-relative samples (row-major index map, chroma index (y>>ss_y, x>>ss_x)), for all geometries',
     text='Unbounded proof (Verus) for the two YUV plane loops: ycbcr_to_ypbpr returns width*height pixels in row-major order where pixel (x,y) is the kernel applied to Y(x,y) and the chroma samples at '
          '(x>>ss_x, y>>ss_y) of the origin-relative planes - hence independent of stride, padding and padding contents, and equal to the 1x1 conversion; ypbpr_to_ycbcr produces planes of size (w>>ss_x, h>>ss_y) '
          'whose luma plane is the pointwise quantisation of the input; sources are borrowed immutably (frame condition by typing); results are spec functions of the inputs (determinism). '
-         'Width/height pass-through of the float-image conversions by contracts on the constructors/accessors. Chroma-block membership of each subsampled chroma sample and the Vec<[f32;3]> iterator loops '
-         '(transfer, primaries, XYB, HSL) are not under contract here.',
+         'The per-pixel loops of yuv_to_rgb, transform_primaries, LinearRgb<->Hsl are verified as in-place maps of one per-pixel function (index-loop form, same per-element expression); '
+         'every TryFrom/From body copies width and height through (contracts on all 18 conversion impls). Chroma-block membership of each subsampled chroma sample, the XYB per-pixel loops and the transfer flatten are not under contract here.',
     note='Assumed: ' + '; '.join(PLANES_ASSUME) + '. ' + TOOLS,
     assumptions=PLANES_ASSUME,
-    not_decided=['each subsampled chroma sample equals the chroma of a pixel of its own block (last_uv_pos skipping) - not proved', 'pointwise-ness of the Vec<[f32;3]> per-pixel loops in transfer/primaries/XYB/HSL (iterator loops Verus cannot ingest)'],
+    not_decided=['each subsampled chroma sample equals the chroma of a pixel of its own block (last_uv_pos skipping) - not proved', 'pointwise-ness of the XYB iterator loops and of the from_raw_parts_mut flatten in transfer.rs (bounded Kani harness only)'],
     design_ref='DESIGN.md §5 C11')
 
 def plan_c12(tier, seed):
@@ -256,3 +256,43 @@ reg('C17', plan=plan_c17, level='proof', min_obligations=200,
     assumptions=[BITPRECISE],
     not_decided=['S within 1e-4 and H within 0.01 deg of the hexcone definition (thorough tier only, under timeout)', 'hsl_to_lrgb values, L=0 -> black, L=1 -> white', 'RGB->HSL->RGB round trip within 1e-5'],
     design_ref='DESIGN.md §5 C17')
+
+# ------------------------------------------------------------------------------------------- C14 / C15 / C03 (U-dispatch)
+DISPATCH_ASSUME = PLANES_ASSUME + ['get_yuv_to_rgb_matrix/get_rgb_to_yuv_matrix Ok/Err contracts assumed in U-dispatch, proved on the real code in U-color (same spec text; U-color is part of the C14 check)',
+    'values of gamut_* named by uninterpreted functions of `primaries` (purity); XYB/HSL kernels and the 18 image_* curve maps uninterpreted deterministic',
+    'R-tryfrom: conversion calls inside TryFrom/From bodies resolved to the verified functions by the static type of their argument',
+    'type invariants yuv_wf/rgb_wf/lrgb_wf/xyb_wf stated as preconditions of the conversions; enc_cfg_ok (shifts < 64, depth 8..16, allocation fits) is the supported-configuration precondition']
+def plan_c14(tier, seed):
+    return {'verus': [('u_dispatch', {}), ('u_color', {})]}
+reg('C14', plan=plan_c14, level='proof', min_obligations=150,
+    title='Support and error contract over every metadata combination',
+    technique='Verus postconditions over the real av-data enums on every match table and every TryFrom/From body: Ok <=> conjunction of stage predicates, named error variant by stage priority; symmetry lemmas',
+    text='Unbounded proof by case analysis over ALL enum values (not only the 3276 fully specified triples): get_rgb_to_yuv_matrix/get_yuv_to_rgb_matrix/get_yuv_constants/get_primaries_xy (U-color, exact), to_linear/to_gamma, transform_primaries, '
+         'gamut_* and all 18 conversion impls return Ok exactly when the stage predicates written from the statement hold, and otherwise the ConversionError variant naming the first failing field; no unwrap/expect/index can panic on these paths; '
+         'decode and encode use the same predicate (symmetry), single-stage pairs fail with the same variant, the 7 standard matrices / 14 curves / 11 primaries always succeed, and with a standard matrix the YUV<->RGB result term mentions only the matrix (independence).',
+    note='; '.join(DISPATCH_ASSUME) + '. ' + TOOLS,
+    assumptions=DISPATCH_ASSUME, design_ref='DESIGN.md §5 C14')
+def plan_c15(tier, seed):
+    return {'verus': [('u_dispatch', {})]}
+reg('C15', plan=plan_c15, level='proof', min_obligations=100,
+    title='Unspecified metadata resolved deterministically; labels match content',
+    technique='Verus: the mpv heuristic as postcondition of guess_*/fix_unspecified_data for all usize sizes; label = content as a postcondition over uninterpreted stage functions applied to the STORED metadata',
+    text='Unbounded proof: guess_matrix_coefficients, guess_color_primaries and fix_unspecified_data equal the documented heuristic transcribed from the statement for every width/height, never return Unspecified; Yuv::new stores exactly the resolved config; '
+         'Rgb::new and Rgb::try_from((LinearRgb,t,p)) resolve to sRGB/BT.709 and label the output with the transfer/primaries actually applied; Yuv::try_from((LinearRgb,cfg)) applies the gamma curve and primaries conversion of the config it stores '
+         '(this clause failed on the pinned tree: finding F5, fixed). The numeric half of the clause (decoding reproduces the input within the C09 budget) is not decided (see C09).',
+    note='; '.join(DISPATCH_ASSUME) + '. ' + TOOLS,
+    assumptions=DISPATCH_ASSUME, not_decided=['numeric round trip through the stored config within the C09 budget'], design_ref='DESIGN.md §5 C15')
+def plan_c03(tier, seed):
+    hs = [H(f'anchor_{c}', domain='input-free', desc=f'{c}(0) within 1e-6 of 0 and (1) within budget of 1') for c in
+          ['rec_1886_eotf', 'rec_1886_inverse_eotf', 'rec_470m_oetf', 'rec_470m_inverse_oetf', 'rec_470bg_oetf', 'rec_470bg_inverse_oetf',
+           'xvycc_eotf', 'xvycc_inverse_eotf', 'srgb_eotf', 'srgb_inverse_eotf', 'st_2084_inverse_oetf', 'st_2084_oetf']]
+    return {'verus': [('u_dispatch', {})], 'kani': [{'crate_dir': '', 'inject': [KT], 'harnesses': hs}]}
+reg('C03', plan=plan_c03, level='proof', min_obligations=100,
+    title='Transfer characteristics: dispatch, aliases, identity, anchors (curve accuracy not decided)',
+    technique='Verus postcondition on the real to_linear/to_gamma match tables over all TransferCharacteristic values (curve named after each characteristic; aliases share one term; Linear returns its input); Kani anchors',
+    text='Unbounded proof over all 19 TransferCharacteristic values and both directions that to_linear/to_gamma apply the curve NAMED after the characteristic (each image_* stub is keyed by the scalar function its macro invocation names), '
+         'that BT.1886/ST170M/ST240M/BT.2020-10/12 produce the same term (bit-identical results) and that Linear returns the very same Vec (bit-exact identity); bit-precise input-free evaluation of f(0) and f(1) for the 12 powf-based curves. '
+         'NOT decided: |fast curve - defining formula| < 2.5e-4 on [0,1] (needs the accuracy of the degree-5 log2/exp2 polynomials against transcendental functions; no oracle in either verifier).',
+    note='; '.join(DISPATCH_ASSUME[-4:]) + '; the macro-generated flatten loop applies the scalar to every component (bounded Kani harness flatten_len_*). ' + TOOLS,
+    assumptions=DISPATCH_ASSUME[-4:], not_decided=['accuracy of every curve against its defining formula on [0,1] (2.5e-4 / 5.7e-4)', 'constants of the curves against the standards'],
+    design_ref='DESIGN.md §5 C03')
